@@ -154,7 +154,7 @@ func keys(m map[int]*connState) []int {
 // (task) on which each of them was served.
 func (w *World) lbOracle() {
 	c := w.p.Cfg
-	if c.ReusePort || c.Loops < 1 || w.p.Cfg.Network == "udp" {
+	if c.ReusePort || c.Loops < 1 || w.p.Cfg.Network == "udp" || c.Client {
 		return
 	}
 	for _, cp := range w.p.Conns {
@@ -164,7 +164,7 @@ func (w *World) lbOracle() {
 	}
 	bySock := map[int]*connState{}
 	for _, cs := range w.conns {
-		if cs != nil {
+		if cs != nil && cs.sock != nil {
 			bySock[cs.sock.ID] = cs
 		}
 	}
